@@ -105,6 +105,11 @@ def strip_escapes(s):
 
 
 # ------------------------------------------------------------------------------ one evaluation
+def dangling_value_option(before):
+    """an option that requires a value stands last or directly in front of another dash token"""
+    return any(t in ("--val", "-w") and (i + 1 == len(before) or before[i + 1].startswith("-")) for i, t in enumerate(before))
+
+
 def evaluate(tree_json, line, path, behaviour, warm=False):
     """-> (info, [(signature, what)]).  tree_json: tree without the built-in help; line: final tokens; path: the
     command path the base line spelled (names/aliases); warm: the application has already served the same line without
@@ -179,8 +184,10 @@ def evaluate(tree_json, line, path, behaviour, warm=False):
                 pass
             elif "USAGE" not in strip_escapes(r.out):
                 fail("help|no-help-printed", "help switch given, stdout is %r" % (r.out[:200],))
-            elif outcome != "command" or node is None:
-                pass  # (the line could not run as it stands -- a required argument is missing: any help page will do)
+            elif outcome != "command" or node is None or dangling_value_option(before):
+                # (the line could not run as it stands -- a required argument, or the value of an option that requires
+                #  one, is missing: which default sub-command "can parse the line" is then moot, any help page will do)
+                pass
             elif sinfo["followed"] == len(path) and not node.builtin:
                 text = strip_escapes(r.out)
                 if "HELPMARK-%s-END" % node.id not in text:
